@@ -353,18 +353,18 @@ impl TimerSys {
         };
         if reps > 0 {
             for _ in 0..reps {
-                self.cpu.vh_update_modules(n_states as u8).map_err(|e| format!("update_modules failed: {}", e))?;
+                self.cpu.vh_update_modules(n_states as u16).map_err(|e| format!("update_modules failed: {}", e))?;
                 if reps == 1 {
                     // the finest partition: one state at a time
                     for _ in 0..n_states {
-                        self.twin.vh_update_modules(1).map_err(|e| format!("update_modules failed: {}", e))?;
+                        self.twin.vh_update_modules(1u16).map_err(|e| format!("update_modules failed: {}", e))?;
                     }
                 } else {
                     // long stretches: a different, coarser partition (pieces of 7 and a rest of 3)
                     let mut left = n_states;
                     while left > 0 {
                         let p = left.min(7);
-                        self.twin.vh_update_modules(p as u8).map_err(|e| format!("update_modules failed: {}", e))?;
+                        self.twin.vh_update_modules(p as u16).map_err(|e| format!("update_modules failed: {}", e))?;
                         left -= p;
                     }
                 }
